@@ -150,3 +150,28 @@ pub fn expected(name: &str) -> Parsed {
         cb_board: oracles::boards::CHRONOBOX_NAMES.contains(&name),
     }
 }
+
+/// Names far longer than four bytes whose length is 4 modulo 256 or modulo
+/// 65536 (and neighbours): an accepted or nearly accepted 4-byte name with a
+/// run of digits / upper-case letters inserted somewhere.
+pub fn long_name() -> impl proptest::strategy::Strategy<Value = String> {
+    use proptest::prelude::*;
+    let base = "(B|C)(09|10|11|12|13|14|16|18)[0-9A-V]|PC[0-7][0-9]|ATAT|TRBA|MCVX|SEQ2|CBF[1-4]|[BCPATMS][C0-9RE][0-9ABVQ][0-9A-Za-z]";
+    let extra = prop_oneof![4 => Just(256usize), 2 => Just(512usize), 1 => Just(65536usize), 1 => Just(255usize), 1 => Just(257usize), 1 => Just(252usize), 2 => 1usize..700];
+    let fill = prop_oneof![3 => Just(b'0'), 1 => Just(b'1'), 1 => Just(b'F'), 1 => Just(b'V'), 1 => Just(b'Z'), 1 => Just(b'9')];
+    (base, 0usize..=4, extra, fill, proptest::option::weighted(0.5, "[0-9A-V]{1,2}")).prop_map(|(base, pos, extra, fill, tail)| {
+        let mut b = base.into_bytes();
+        let pos = pos.min(b.len());
+        let mut ins = vec![fill; extra];
+        if let Some(t) = tail {
+            // the inserted run ends in other digits, so that a parser which reads on gets a non-zero number
+            let t = t.into_bytes();
+            let n = ins.len();
+            if n >= t.len() {
+                ins[n - t.len()..].copy_from_slice(&t);
+            }
+        }
+        b.splice(pos..pos, ins);
+        String::from_utf8(b).unwrap()
+    })
+}
